@@ -149,7 +149,7 @@ def fresh_asm(items, restore=True, env=None):
     return json.loads(p.stdout.strip().splitlines()[-1])
 
 
-ALL_ACTS = ["RegCase", "KwCase", "Spacing", "NumBase", "ImmSign", "DispSign", "TermOrder", "DispOut", "Percent", "StBare", "ToAtt", "DispSplit"]
+ALL_ACTS = ["RegCase", "KwCase", "Spacing", "NumBase", "ImmSign", "DispSign", "TermOrder", "DispOut", "Percent", "StBare", "ToAtt", "DispSplit", "ZeroDisp"]
 
 
 def spell(lines, maxacts, acts, timeout=3000, chk=None):
